@@ -587,6 +587,71 @@ def pyproj_source_coords(cfg):
     return np.asarray(sc), np.asarray(sr)
 
 
+def chord_lost(cfg, miss, sc, sr):
+    """class of the open finding c13:crossref-chord (same root as c12:crossref-chord): True when EVERY covered pixel that
+    holds the fill maps to a source location OUTSIDE the quadrilateral spanned by the four corners of its destination
+    chunk in source pixel space (pyproj + shapely, by more than 0.01 source pixels) - GeoboxTiles.tiles() moves a chunk
+    extent to the source CRS through its 4 corners only, so source tiles beyond the chords are not listed.  Any covered
+    pixel lost INSIDE that quadrilateral is a different violation and keeps the key of the predicate."""
+    from affine import Affine
+    from pyproj import Transformer
+    from shapely.geometry import Point, Polygon
+
+    H, W = cfg["dst_shape"]
+    cy, cx = cfg["dst_chunks"]
+    D, S = Affine(*cfg["dst_tr"]), Affine(*cfg["src_tr"])
+    t = Transformer.from_crs(cfg["dst_crs"], cfg["src_crs"], always_xy=True)
+    ys, xs = np.nonzero(miss)
+    quads = {}
+    for y, x in zip(ys.tolist(), xs.tolist()):
+        j = (y // cy, x // cx)
+        if j not in quads:
+            y0, x0 = j[0] * cy, j[1] * cx
+            y1, x1 = min(y0 + cy, H), min(x0 + cx, W)
+            px = np.array([x0, x1, x1, x0], dtype="float64")
+            py = np.array([y0, y0, y1, y1], dtype="float64")
+            wx, wy = D * (px, py)
+            qx, qy = t.transform(wx, wy)
+            qc, qr = (~S) * (np.asarray(qx, dtype="float64"), np.asarray(qy, dtype="float64"))
+            if not (np.isfinite(qc).all() and np.isfinite(qr).all()):
+                return False
+            quads[j] = Polygon(list(zip(qc.tolist(), qr.tolist())))
+        if quads[j].distance(Point(float(sc[y, x]), float(sr[y, x]))) <= 0.01:
+            return False
+    return True
+
+
+def p_dtype_kw(cfg):
+    """a bool (or integer) source reprojected into another pixel type: _dask_rio_reproject(..., dtype=T) against
+    rio_reproject into an array of type T; same values (bool pixels become 0/1 like astype in both)"""
+    import dask.array as da
+    from odc.geo._dask import _dask_rio_reproject
+    from odc.geo.warp import rio_reproject
+
+    try:
+        sgb = gbox(cfg["src_shape"], cfg["src_tr"], cfg["src_crs"])
+        dgb = gbox(cfg["dst_shape"], cfg["dst_tr"], cfg["dst_crs"])
+        data = mk_data(cfg)
+        ydim = 1 if "t" in cfg.get("layout", "yx") else 0
+        T = np.dtype(cfg["to_dtype"])
+        whole = np.full((*data.shape[:ydim], *dgb.shape), 99, dtype=T)
+        rio_reproject(data, whole, sgb, dgb, "nearest", None, None, ydim=ydim)
+        lazy = _dask_rio_reproject(da.from_array(data, chunks=full_chunks(cfg, data)), sgb, dgb, "nearest", None, None,
+                                   ydim=ydim, chunks=tuple(cfg["dst_chunks"]), dtype=T)
+        chunked = np.asarray(compute(lazy, cfg))
+    except Exception as e:  # noqa: BLE001
+        return False, f"raised {type(e).__name__}: {str(e)[:200]}", "dtype-kw"
+    ref = data.astype(T)
+    for name, arr in (("in-memory", whole), ("chunked", chunked)):
+        extra = np.setdiff1d(np.unique(arr[np.isfinite(arr)] if T.kind == "f" else arr), np.append(np.unique(ref), 0))
+        if extra.size:
+            return False, (f"{name}: {cfg['dtype']} source warped into {T} holds {extra.tolist()[:4]}, source.astype({T}) only "
+                           f"has {np.unique(ref).tolist()[:6]}"), "dtype-kw"
+    if chunked.shape != whole.shape or not bool(((chunked == whole) | ((chunked != chunked) & (whole != whole))).all()):
+        return False, f"chunked (dtype={T}) and in-memory results differ", "dtype-kw"
+    return True, "ok", "dtype-kw"
+
+
 def p_cover(cfg):
     """any CRS pair, any orientation of the grids: no error; destination pixels whose centre maps (pyproj) at least
     half a pixel inside the source hold data - in memory and in EVERY chunk; pixels mapping a pixel or more outside
@@ -614,9 +679,12 @@ def p_cover(cfg):
         miss = inside[:, :, None] & isfill
         if miss.any():
             y, x, k = [int(v[0]) for v in np.nonzero(miss)]
+            key = "cover"
+            if name == "chunked" and cfg["src_crs"] != cfg["dst_crs"] and chord_lost(cfg, miss.any(axis=2), sc, sr):
+                key = "crossref-chord"
             return False, (f"{name}: {int(miss.sum())} of {int(inside.sum()) * a.shape[2]} pixel(s) covered by the source hold the "
                            f"fill {fill!r}, first at (y={y}, x={x}, plane={k}) which maps to source (col={sc[y, x]:.2f}, "
-                           f"row={sr[y, x]:.2f})"), "cover"
+                           f"row={sr[y, x]:.2f})"), key
         extra = outside[:, :, None] & ~isfill
         if extra.any():
             y, x, k = [int(v[0]) for v in np.nonzero(extra)]
@@ -635,7 +703,7 @@ def p_cover(cfg):
     return True, f"{int(inside.sum())} covered, {int(outside.sum())} outside pixel(s)", "cover"
 
 
-PREDICATES = {"cover": p_cover, "tall": p_tall, "joint": p_joint, "equal": p_equal, "fill": p_fill, "disjoint": p_disjoint, "direct": p_direct,
+PREDICATES = {"dtype-kw": p_dtype_kw, "cover": p_cover, "tall": p_tall, "joint": p_joint, "equal": p_equal, "fill": p_fill, "disjoint": p_disjoint, "direct": p_direct,
               "complete-deps": p_complete_deps}
 from vlib import crshist  # noqa: E402
 
@@ -893,6 +961,27 @@ def rand_chunk_aligned(rng, level, layout=True):
         if cfg["layout"] == "tyx":
             cfg["T"] = rng.choice([1, 2, 3])
             cfg["t_chunk"] = rng.choice([1, 2, cfg["T"]])
+    return cfg
+
+
+def rand_world(rng, i):
+    """(nearly) world-spanning EPSG:3857 source onto a global / hemispheric EPSG:4326 grid (or back): the lon/lat
+    footprint of such a source, buffered by two pixels, is not a valid polygon"""
+    R = 20037508.342789244
+    n, m = rng.choice([(64, 64), (32, 48), (48, 32)])
+    k = rng.choice([1, 1, 1, 0.98, 0.75])
+    span = 2 * R * k
+    src_tr = [span / m, 0, -R * k, 0, -span / n, R * k]
+    H, W = rng.choice([(36, 72), (18, 36), (30, 40)])
+    lon0, lon1, lat1, lat0 = rng.choice([(-180, 180, 90, -90), (-180, 180, 85, -85), (-180, 0, 90, -90), (-170, 170, 80, -60)])
+    dst_tr = [(lon1 - lon0) / W, 0, lon0, 0, -(lat1 - lat0) / H, lat1]
+    cs = rng.choice([16, 8, n])
+    cfg = {"kind": "world", "src_shape": [n, m], "src_tr": src_tr, "src_crs": "epsg:3857", "dst_shape": [H, W],
+           "dst_tr": dst_tr, "dst_crs": "epsg:4326", "dtype": rng.choice(["int32", "float32", "int16"]),
+           "nodata_attr": None, "src_nodata": None, "dst_nodata": rng.choice([None, None, -5]), "nodata_pixels": False,
+           "zeros": False, "src_chunks": [[min(cs, n - a) for a in range(0, n, cs)], [min(cs, m - a) for a in range(0, m, cs)]],
+           "dst_chunks": rng.choice([[H, W], [9, 9], [5, 7], [H, 12]]), "scheduler": "synchronous", "optimize": True,
+           "layout": "yx"}
     return cfg
 
 
@@ -1291,6 +1380,19 @@ def run(out, tier, scratch):
                 cfg["variants"][1]["dst_nodata"] = a
         cfg["how"] = rng.choice(["compute", "dataset"])
         judge("joint", cfg, f"joint {i}")
+    # world-spanning web-mercator sources onto global lon/lat grids
+    for i in range(6 if tier == "quick" else 60):
+        cfg = rand_world(rng, i)
+        judge("fill", cfg, f"world {i}")
+        judge("cover", cfg, f"world {i}")
+    # bool / integer source into another pixel type (dtype= of the chunked path against a typed in-memory destination)
+    for i in range(6 if tier == "quick" else 60):
+        cfg = rand_same_crs(rng, kind=["larger", "aligned", "subpixel"][i % 3], level="raw", layout=i % 2 == 0)
+        cfg.update(dtype="bool" if i % 3 else "uint8", to_dtype=rng.choice(["uint8", "int16", "int32", "int8", "uint16"]),   # integer targets: one fill (0) on every path
+                   src_nodata=None, dst_nodata=None, nodata_attr=None, zeros=False)
+        if cfg.get("layout", "yx").endswith("b"):
+            cfg["layout"] = "yx"
+        judge("dtype-kw", cfg, f"dtype-kw {i}")
     # coverage judged with pyproj directly: mirrored / rotated sources, thin and single-pixel destination chunks
     for i in range(14 if tier == "quick" else 150):
         judge("cover", rand_cover(rng, i, False), f"cover {i}")
